@@ -68,6 +68,10 @@ func genHistory(rt *rapid.T, target map[string][]byte, decoys []string, label st
 		var v []byte
 		if tv, ok := target[k]; ok && rapid.Bool().Draw(rt, label+"_tv") {
 			v = tv
+		} else if ok && len(tv) > 0 && gen.Chance(rt, 30, label+"_like") {
+			// a value that is easy to mistake for the one the key ends with (same length; other letter case, one end
+			// byte different, or the same CRC-32): the final write must still replace it
+			v = mptkit.Lookalike(rt, tv, label+"_lk")
 		} else {
 			v = mptkit.GenValue(rt, label+"_v")
 		}
